@@ -1,4 +1,5 @@
 import Mkts.Lemmas.Path
+import Mkts.Model.PathFs
 /-!
 # C16 — no request can touch files outside the data root
 
@@ -64,36 +65,47 @@ theorem C16_destroy_touched (root : Path) (items : List Str) (h : ∀ c ∈ item
     have := congrArg List.length he
     simp at this
 
-/-- the full statement: whatever the key, nothing outside the root is touched -/
-def C16_full : Prop :=
-  ∀ (root : Path) (items : List Str) (year : Nat), (∀ c ∈ root, plain c) →
-    ∀ p ∈ createTouched root items year, root <+: p
+set_option maxRecDepth 100000 in
+/-- the CURRENT source validates the key in `AddTimeBucket` and `RemoveTimeBucket` before any effect
+    on the directory tree, and `TimeBucketKey.Validate` tests every item for "", ".", "..", separator
+    and NUL (regenerated skeletons; a revert of the repair makes this `decide` fail and the executable
+    model follow the unvalidated code) -/
+theorem C16_code_validates : Mkts.PathFs.addValidates = true ∧ Mkts.PathFs.removeValidates = true := by decide
+
+theorem allSafe_iff (items : List Str) : allSafe items = true ↔ ∀ c ∈ items, safe c := by
+  simp [allSafe]
+
+/-- the full statement, for the code as it is now: WHATEVER the key, everything bucket creation
+    (Create, and the auto-create of a write) constructs lies under the root, and everything Destroy
+    hands to `RemoveAll` lies strictly below it -/
+theorem C16_full (root : Path) (items : List Str) (year : Nat) :
+    (∀ p ∈ createTouchedV Mkts.PathFs.addValidates root items year, root <+: p) ∧
+    (∀ p ∈ destroyTouchedV Mkts.PathFs.removeValidates root items, root <+: p ∧ p ≠ root) := by
+  rw [C16_code_validates.1, C16_code_validates.2]
+  unfold createTouchedV destroyTouchedV
+  cases h : allSafe items with
+  | false => simp
+  | true =>
+    have hs := (allSafe_iff items).mp h
+    simp only [Bool.not_true, Bool.and_false, Bool.false_eq_true, if_false]
+    exact ⟨C16_create_touched root items year hs, C16_destroy_touched root items hs⟩
+
+/-- a write to an EXISTING bucket goes to the directory the catalog's `directMap` holds for the
+    cleaned key path; whenever that directory is under the root (all the catalog ever holds now:
+    it is filled from the tree below the root and by validated `AddTimeBucket`s) so is the year file -/
+theorem C16_write_existing (root dirp : Path) (year : Nat) (h : root <+: dirp) :
+    root <+: dirp ++ [yearFile year] ∧ root <+: dirp ++ [yearTmp year] :=
+  ⟨prefix_append_of_prefix _ h, prefix_append_of_prefix _ h⟩
 
 def cexRoot : Path := [[115, 114, 118], [100, 97, 116, 97]]
 def cexItems : List Str := [dotdot, [49, 77, 105, 110], [79, 72, 76, 67]]
 
-/-- key `../1Min/OHLC`: the bucket directory, its `category_name` and year file are created in the
-    parent of the root (reproduced on the server: DESIGN §7 F10, corpus/C16/known_F10.ops) -/
-theorem C16_cex_dotdot : ¬ C16_full := by
-  intro h
-  have := h cexRoot cexItems 2020 (by decide) [[115, 114, 118], [49, 77, 105, 110], [79, 72, 76, 67], yearFile 2020] (by decide)
-  revert this
-  decide
-
-/-- what the request of the counterexample touches, concretely -/
-theorem C16_cex_dotdot_paths :
-    [[115, 114, 118], [49, 77, 105, 110], [79, 72, 76, 67], yearFile 2020] ∈ createTouched cexRoot cexItems 2020 ∧
-    [[115, 114, 118], catName] ∈ createTouched cexRoot cexItems 2020 ∧
-    joinKey cexRoot cexItems = [[115, 114, 118], [49, 77, 105, 110], [79, 72, 76, 67]] := by decide
-
-/-- the partial theorem: all four request kinds, keys with safe items -/
-theorem C16_partial (root : Path) (items : List Str) (year : Nat) (h : ∀ c ∈ items, safe c) :
-    (∀ p ∈ createTouched root items year, root <+: p) ∧
-    (∀ p ∈ writeTouched root items year, root <+: p) ∧
-    (∀ p ∈ destroyTouched root items, root <+: p ∧ p ≠ root) ∧
-    root <+: joinKey root items :=
-  ⟨C16_create_touched root items year h, C16_write_touched root items year h,
-   C16_destroy_touched root items h, (C16_join_under_root root items h).2⟩
+/-- BEFORE the repair (no validation: `createTouchedV false`) the key `../1Min/OHLC` put the bucket
+    directory, its `category_name` and year file into the parent of the root (C16-F10, fixed) -/
+theorem C16_before_repair_dotdot :
+    [[115, 114, 118], [49, 77, 105, 110], [79, 72, 76, 67], yearFile 2020] ∈ createTouchedV false cexRoot cexItems 2020 ∧
+    ¬ cexRoot <+: [[115, 114, 118], [49, 77, 105, 110], [79, 72, 76, 67], yearFile 2020] ∧
+    createTouchedV true cexRoot cexItems 2020 = [] := by decide
 
 /-- the excluded class is exact: below a non-empty root, creation stays under the root iff the walk
     over the items never pops above its start (`..` outnumbering the real names of some prefix) -/
